@@ -589,6 +589,15 @@ func (runInfo *runInfoStruct) invokeNilCoalescingOpExpr(expr *ast.NilCoalescingO
 			return
 		}
 	} else {
+		// the error of the left side is replaced by the right side,
+		// but a cancelled context is not something to recover from
+		select {
+		case <-runInfo.ctx.Done():
+			runInfo.rv = nilValue
+			runInfo.err = ErrInterrupt
+			return
+		default:
+		}
 		runInfo.err = nil
 	}
 	runInfo.expr = expr.RHS
